@@ -19,14 +19,20 @@ from models import containers_ref as R
 
 RULE = (
     "Structured: every shape (top-level Structured; children = integer leaf / tuple of <= 2 nodes / Structured with "
-    "optional root and keys a, b in both key orders) up to the depth and leaf bounds, wrapped 0-2 times in "
-    "Structured(...), x every operation group; every ordered pair (thorough: also triples) of small nodes for _merge / "
-    "== / _update.  LayeredMapping: every stack of <= 3 layers (plain dict / unnamed / named 'x' / named 'y' nested "
-    "LayeredMapping, every subset of {k1,k2,k3} per layer) x every history of mutating operations up to the bound "
-    "(set, del, named_layers, with_layers in all prepend/inplace/name/layer-kind variants); all read operations "
-    "(in, [], get, get_with_layer_name, iter, len, items) are evaluated on every live mapping after EVERY step.  "
-    "SimpleFormula: every history up to the bound over insert/append/setitem/del/extend/reverse/slice-assign/"
-    "slice-delete with 5-6 terms, for the 3 ordering modes and 2 initial formulas, all reads after every step.  "
+    "optional root and keys a, b, both key orders at the top) up to the nesting-depth and node-count bounds, wrapped "
+    "0-2 times in Structured(...), x every operation group (map, flatten, to_dict, simplify with every flag "
+    "combination, access, equality/pickle, update/assignment); every ordered pair (thorough: also triples) of small "
+    "nodes for _merge / == / _update, with a custom merger and with the default merger on list leaves.  "
+    "LayeredMapping: every stack of <= 3 layers (plain dict / unnamed / named 'x' / named 'y' nested LayeredMapping; "
+    "every subset of {k1,k2,k3} per layer, or for tall stacks the covering family in which each key takes every "
+    "presence pattern) x every history of mutating events up to the bound (set, del, named_layers, with_layers in its "
+    "prepend/inplace/name/layer-kind variants); after EVERY event the lookup of every key (value and source-layer "
+    "name), the length and the supplied dicts are compared with the model, and at the end of every history (every "
+    "prefix of a history is itself an enumerated history) every read operation (in, [], get, get_with_layer_name, "
+    "get_layer_name_for_key, iter, len, items, named_layers, attribute access) on the mapping and all mappings it was "
+    "derived from.  SimpleFormula: every history up to the bound over insert/append/setitem/del/extend/reverse/"
+    "slice-delete (wide alphabet: also slice-assign/pop/remove/+=) with 5-6 terms, for the 3 ordering modes and 2 "
+    "initial formulas; exact content and ordering invariant after every event, all reads at the end of every history.  "
     "OrderedSet: every ordered pair of item sequences.  Non-trivial = the case has at least one leaf / one layer / "
     "one mutation / one item (counted once per execution)."
 )
@@ -34,8 +40,9 @@ ASSUMPTIONS = [
     "small-scope hypothesis: recursion over keyed/tuple structure, layer search order and re-sorting have no mechanism "
     "that first fails beyond the explored depth / leaf / layer / history bounds",
     "read operations of LayeredMapping and SimpleFormula are side-effect free except the cached `named_layers` "
-    "(which is therefore an explicit history event); all other reads are evaluated after every step instead of being "
-    "interleaved as events, which subsumes every interleaving under that assumption",
+    "(which is therefore an explicit history event); the other reads are evaluated after events / at the end of every "
+    "history (= after every prefix) instead of being interleaved as events, which subsumes every interleaving under "
+    "that assumption",
     "where the docstrings are silent the behaviour pinned by the repository's own tests is taken as the contract: "
     "tuples are concatenated by Structured._merge, misaligned tuple/non-tuple structure raises ValueError, deleting a "
     "key that only lives in a supplied layer raises KeyError, layer names are ':'-joined along the path",
@@ -802,13 +809,13 @@ def lm_build(c, ctx, w):
 
 def drv_lm(c, ctx, col):
     events = ctx["events"]
-    nops = c.upto(ctx["max_ops"])
+    nops = ctx.get("min_ops", 0) + c.upto(ctx["max_ops"] - ctx.get("min_ops", 0))
     w = LMWorld()
     nl = lm_build(c, ctx, w)
     if nl:
         col.interesting()
     for step in range(nops):
-        ev = c.pick(events)
+        ev = ctx["first"] if step == 0 and ctx.get("first") else c.pick(events)
         lm_apply(col, w, ev, step)
         lm_light(col, w)
         col.count("steps")
@@ -926,14 +933,17 @@ def sf_reads(col, script, mode, f, model):
     return True
 
 
+MODES = ["degree", "none", "sort"]
+
+
 def _T(t):
     return "T(%s)" % ", ".join(repr(x) for x in t)
 
 
 def drv_sf(c, ctx, col):
-    mode = c.pick(["degree", "none", "sort"])
+    mode = c.pick(ctx.get("modes") or MODES)
     init = c.pick(ctx["inits"])
-    nops = c.upto(ctx["max_ops"])
+    nops = ctx.get("min_ops", 0) + c.upto(ctx["max_ops"] - ctx.get("min_ops", 0))
     script = ["f = SimpleFormula([%s], _ordering=%r)" % (", ".join(_T(t) for t in init), mode)]
     f = SimpleFormula([mk_term(t) for t in init], _ordering=mode)
     model = R.sf_reorder(init, mode)
@@ -944,7 +954,7 @@ def drv_sf(c, ctx, col):
     if nops:
         col.interesting()
     for step in range(nops):
-        ev = c.pick(ctx["events"])
+        ev = ctx["first"] if step == 0 and ctx.get("first") else c.pick(ctx["events"])
         kind = ev[0]
         exact = True
         if kind == "insert":
@@ -1111,16 +1121,22 @@ def subchecks(tier, seed):
     # ---- LayeredMapping
     full, reduced = lm_events(True), lm_events(False)
 
-    def lm_sub(name, events, max_ops, full_upto, kinds, tops, sd):
-        subs.append(Sub(name, drv_lm, {"events": events, "max_ops": max_ops, "max_layers": 3, "full_upto": full_upto,
-                                       "kinds": kinds, "top_names": tops}, shard_depth=sd,
-                        bounds={"layers": "0..3", "layer_kinds": kinds, "top_name": tops,
+    def lm_sub(name, events, max_ops, full_upto, kinds, tops, sd, max_layers=3, **extra):
+        ctx = {"events": events, "max_ops": max_ops, "max_layers": max_layers, "full_upto": full_upto, "kinds": kinds,
+               "top_names": tops}
+        ctx.update(extra)
+        subs.append(Sub(name, drv_lm, ctx, shard_depth=sd,
+                        bounds={"layers": "0..%d" % max_layers, "layer_kinds": kinds, "top_name": tops,
+                                **({"first_event": repr(extra["first"]), "note": "VERIF_SEED-selected exhaustive slice of the "
+                                    "thorough scope (histories of exactly %d events)" % max_ops} if extra else {}),
                                 "keys_per_layer": "every subset of k1,k2,k3 for stacks of <= %d layers; for taller stacks the "
                                                   "2**n covering matrices (every per-key presence pattern for every key)" % full_upto,
                                 "mutating_events": len(events), "history": "<= %d events" % max_ops}))
     if quick:
         lm_sub("layered-stacks", full, 1, 2, KINDS, [None, "t"], 6)
         lm_sub("layered-histories", reduced, 3, 1, ["plain", "lm:x"], [None], 6)
+        lm_sub("layered-histories-seed-slice", reduced, 4, 1, ["plain"], [None], 5, max_layers=1,
+               min_ops=4, first=reduced[seed % len(reduced)])
     else:
         lm_sub("layered-stacks", full, 1, 3, KINDS, [None, "t"], 6)
         lm_sub("layered-stacks-2", full, 2, 2, KINDS, [None], 5)
@@ -1128,13 +1144,20 @@ def subchecks(tier, seed):
     # ---- SimpleFormula
     inits = [(), (("a", "b"), ("1",), ("b",), ("c", "a"), ("a",))]
 
-    def sf_sub(name, ev, terms, max_ops):
-        subs.append(Sub(name, drv_sf, {"events": ev, "max_ops": max_ops, "inits": inits}, shard_depth=4,
-                        bounds={"orderings": ["degree", "none", "sort"], "terms": [R.t_str(t) for t in terms], "events": len(ev),
+    def sf_sub(name, ev, terms, max_ops, **extra):
+        ctx = {"events": ev, "max_ops": max_ops, "inits": inits}
+        ctx.update(extra)
+        subs.append(Sub(name, drv_sf, ctx, shard_depth=4,
+                        bounds={"orderings": ctx.get("modes") or MODES, "terms": [R.t_str(t) for t in terms], "events": len(ev),
+                                **({"first_event": repr(extra["first"]), "note": "VERIF_SEED-selected exhaustive slice of the "
+                                    "thorough scope (histories of exactly %d events)" % max_ops} if extra else {}),
                                 "history": "<= %d events" % max_ops, "initial_formulas": [[R.t_str(t) for t in i] for i in inits]}))
     if quick:
         sf_sub("formula-sequence", sf_events(T5, False), T5, 3)
         sf_sub("formula-sequence-wide", sf_events(T6, True), T6, 2)
+        narrow = sf_events(T5, False)
+        sf_sub("formula-sequence-seed-slice", narrow, T5, 4, min_ops=4, first=narrow[seed % len(narrow)],
+               modes=[MODES[seed % 3]])
     else:
         sf_sub("formula-sequence", sf_events(T5, False), T5, 4)
         sf_sub("formula-sequence-wide", sf_events(T6, True, True), T6, 3)
